@@ -176,12 +176,12 @@ Theorem dirties_restored_refuted : code_rejournal = true -> exists x ops,
   m_core (s_m (fst (step false (run false (fst (step false x OSnapshot)) ops) (ORevert (s_next x))))) = m_core (s_m x) /\
   m_dirt (s_m (fst (step false (run false (fst (step false x OSnapshot)) ops) (ORevert (s_next x))))) <> m_dirt (s_m x).
 Proof.
-  intros Hrj. first [exfalso; vm_compute in Hrj; discriminate Hrj|idtac].
-  exists f8_state, [OAddSize [16%N]]. split; [|split; [|split]].
-  - apply Inv_fresh. apply wf_coreb_WFc. vm_compute. reflexivity.
-  - vm_compute. reflexivity.
-  - vm_compute. reflexivity.
-  - vm_compute. intros H. discriminate H.
+  intros Hrj.
+  first [ exfalso; vm_compute in Hrj; discriminate Hrj
+        | exists f8_state, [OAddSize [16%N]];
+          split; [apply Inv_fresh; apply wf_coreb_WFc; vm_compute; reflexivity
+                 |split; [vm_compute; reflexivity
+                         |split; [vm_compute; reflexivity|vm_compute; intros H; discriminate H]]] ].
 Qed.
 Print Assumptions dirties_restored_refuted.
 
